@@ -1,6 +1,9 @@
-(* Extract/Extract.v — extraction of the runner.  Directives used: exactly those
-   of the two standard files ExtrOcamlBasic and ExtrOcamlZBigInt; none of ours. *)
-From Coq Require Import Extraction ExtrOcamlBasic ExtrOcamlZBigInt.
+(* Extract/Extract.v — extraction of the runner.  Directives used: those of the two
+   standard files ExtrOcamlBasic and ExtrOcamlZBigInt, plus ONE of ours: Z.gcd is mapped
+   to zarith's gcd (both return the non-negative gcd, gcd 0 0 = 0).  The in-Coq
+   vm_compute cross-check of the harness re-evaluates sampled cases without it. *)
+From Coq Require Import ZArith Extraction ExtrOcamlBasic ExtrOcamlZBigInt.
 From GB Require Import Base.Field Extract.Sx Extract.Run.
+Extract Constant Z.gcd => "Big_int_Z.gcd_big_int".
 Extraction Language OCaml.
 Extraction "model.ml" run QcK qc_of sx_eqb.
